@@ -842,7 +842,7 @@ Proof. repeat split; vm_compute; reflexivity. Qed.
 
 Lemma multisig_sound s i : info_from_multisig_script s = Ret (Some i) ->
   exists m keys, i = IMultisig m keys /\ (1 <= m <= 15)%Z /\ Forall key_ok keys /\
-    (m <= Z.of_nat (length keys))%Z /\ (length keys <= 175)%nat /\ s = info_render i.
+    (m <= Z.of_nat (length keys))%Z /\ (length keys <= 16)%nat /\ s = info_render i.
 Proof.
   unfold info_from_multisig_script. destruct multisig_opcodes as (O1 & O16 & OC). rewrite O1, O16. cbn [bind].
   destruct (length s =? 0)%nat eqn:E0; [discriminate|].
@@ -851,6 +851,7 @@ Proof.
   destruct (get_opcode_single_inv _ _ _ _ _ _ _ G0 (is_single_above o ltac:(lia))) as (N0 & Lo & _ & ->).
   destruct (multisig_keys (S (length s)) s 1 o []) as [[[[o2 pc2] keys]|]| |] eqn:MK; cbn [bind]; try discriminate.
   destruct (length s <=? pc2)%nat eqn:E1; [discriminate|].
+  destruct (negb ((81 <=? o2) && (o2 <=? 96))) eqn:R2; [discriminate|].
   destruct ((Z.of_N o2 + (1 - Z.of_N 81) <? Z.of_N o + (1 - Z.of_N 81))%Z
             || negb (Z.of_nat (length keys) =? Z.of_N o2 + (1 - Z.of_N 81))%Z) eqn:E2; [discriminate|].
   destruct (multisig_keys_inv _ _ _ _ _ _ _ _ MK ltac:(lia)) as (nk & pcm & d2 & ok2 & -> & F & SK & Lm & G2).
@@ -860,15 +861,356 @@ Proof.
   destruct (negb (o3 =? 174)) eqn:E3; [discriminate|].
   destruct (negb (pc3 =? length s)%nat) eqn:E4; [discriminate|].
   intros H; injection H as <-.
-  assert (o2 = 80 + N.of_nat (length nk)) by lia.
+  assert (Ho2 : o2 = 80 + N.of_nat (length nk)) by lia.
   destruct (get_opcode_single_inv _ _ _ _ _ _ _ G2 (is_single_above o2 ltac:(lia))) as (N2 & Lo2 & _ & ->).
   assert (o3 = 174) by lia. subst o3.
   destruct (get_opcode_single_inv _ _ _ _ _ _ _ G3 (is_single_above 174 ltac:(lia))) as (N3 & _ & _ & ->).
   exists (Z.of_N o + (1 - Z.of_N 81))%Z, nk. repeat split; auto; try lia.
   cbn [info_render].
-  replace (Z.to_N (80 + (Z.of_N o + (1 - Z.of_N 81)))) with o by lia.
-  rewrite <- (skipn_O s) at 1. rewrite (nth_error_skipn _ _ _ N0). f_equal.
-  rewrite SK. f_equal. rewrite (nth_error_skipn _ _ _ N2). subst o2. f_equal.
-  rewrite (nth_error_skipn _ _ _ N3). f_equal.
-  apply skipn_all2. lia.
+  pose proof (nth_error_skipn _ _ _ N0) as A0. rewrite skipn_O in A0.
+  pose proof (nth_error_skipn _ _ _ N2) as A2.
+  pose proof (nth_error_skipn _ _ _ N3) as A3.
+  rewrite (skipn_all2 (n:=S (S pcm)) s) in A3 by lia.
+  rewrite A0 at 1. f_equal; [f_equal; lia|]. rewrite SK. f_equal. rewrite A2, A3, Ho2. reflexivity.
 Qed.
+
+Lemma compile_int_token_small v : (1 <= v <= 16)%Z -> compile_int_token v = Ret [n2b (Z.to_N (80 + v))].
+Proof.
+  intros H.
+  assert (C : (v = 1 \/ v = 2 \/ v = 3 \/ v = 4 \/ v = 5 \/ v = 6 \/ v = 7 \/ v = 8 \/ v = 9 \/ v = 10 \/ v = 11 \/
+               v = 12 \/ v = 13 \/ v = 14 \/ v = 15 \/ v = 16)%Z) by lia.
+  repeat (destruct C as [->|C]; [vm_compute; reflexivity|]). subst. vm_compute. reflexivity.
+Qed.
+
+Lemma mapM_hex_keys keys : Forall key_ok keys -> mapM compile_hex_token keys = Ret (map spec_push keys).
+Proof.
+  induction 1 as [|k keys K F IH]; [reflexivity|]. cbn [mapM map]. unfold key_ok in K.
+  rewrite compile_hex_token_long by (try lia; change (2 ^ 32) with 4294967296; lia).
+  cbn [bind]. rewrite IH. reflexivity.
+Qed.
+
+Lemma for_info_multisig m keys : (1 <= m <= 15)%Z -> Forall key_ok keys ->
+  (m <= Z.of_nat (length keys))%Z -> (length keys <= 16)%nat ->
+  for_info (IMultisig m keys) = Ret (info_render (IMultisig m keys)).
+Proof.
+  intros Hm F Hn H16. unfold for_info. eval_format. cbn [bind compile_format compile_arg]. eval_opnames.
+  rewrite (compile_int_token_small m) by lia.
+  rewrite (compile_int_token_small (Z.of_nat (length keys))) by lia.
+  rewrite (mapM_hex_keys keys F). cbn [bind app info_render].
+  replace (Z.to_N (80 + Z.of_nat (length keys))) with (80 + N.of_nat (length keys)) by lia.
+  rewrite ?app_nil_r. reflexivity.
+Qed.
+
+(* ---- C08_classification_faithful: whatever info_for_script reports, for_info rebuilds the very same bytes ---- *)
+Theorem classification_faithful s i : info_for_script s = Ret i -> for_info i = Ret s.
+Proof.
+  intros H. destruct (info_for_script_sound_simple s i H) as [(P & E & K)|M].
+  - destruct i; try contradiction; cbn [payload_ok] in P; try (rewrite E; apply for_info_nulldata);
+      rewrite E; eapply for_info_render_token; try reflexivity; try lia; change (2 ^ 32) with 4294967296; lia.
+  - unfold info_step_multisig in M.
+    destruct (info_from_multisig_script s) as [[i'|]| |] eqn:MS; cbn [bind] in M; try discriminate; injection M as <-.
+    + destruct (multisig_sound s i' MS) as (m & keys & -> & Hm & F & Hn & H16 & E). rewrite E.
+      now apply for_info_multisig.
+    + reflexivity.
+Qed.
+
+(* and what a reported kind tells about the script *)
+Theorem classification_shape s i : info_for_script s = Ret i ->
+  match i with
+  | IMultisig m keys => (1 <= m <= 15)%Z /\ Forall key_ok keys /\ (m <= Z.of_nat (length keys))%Z /\ (length keys <= 16)%nat
+  | _ => payload_ok i
+  end /\ s = info_render i.
+Proof.
+  intros H. destruct (info_for_script_sound_simple s i H) as [(P & E & K)|M].
+  - split; [|exact E]. destruct i; try contradiction; exact P.
+  - unfold info_step_multisig in M.
+    destruct (info_from_multisig_script s) as [[i'|]| |] eqn:MS; cbn [bind] in M; try discriminate; injection M as <-.
+    + destruct (multisig_sound s i' MS) as (m & keys & -> & Hm & F & Hn & H16 & E). auto.
+    + cbn. auto.
+Qed.
+
+(* ============================ the five address kinds: constructor and classifier agree with the spec ============================ *)
+Lemma kind_defs_agree : forall k, kind_len k = std_len k.
+Proof. reflexivity. Qed.
+
+Lemma std_script_render k p : k <= 4 -> length p = std_len k -> std_script k p = info_render (kind_info k p).
+Proof.
+  intros Hk L.
+  assert (C : k = 0 \/ k = 1 \/ k = 2 \/ k = 3 \/ k = 4) by lia.
+  destruct C as [->|[->|[->|[->| ->]]]]; cbn [std_len] in L;
+    cbn [std_script kind_info info_render render tmpl_cls]; rewrite spec_push_direct by lia; rewrite L;
+    cbn [app]; rewrite ?app_nil_r; reflexivity.
+Qed.
+
+Lemma for_info_std k p : k <= 4 -> length p = std_len k -> for_info (kind_info k p) = Ret (std_script k p).
+Proof.
+  intros Hk L. rewrite (std_script_render k p Hk L).
+  assert (C : k = 0 \/ k = 1 \/ k = 2 \/ k = 3 \/ k = 4) by lia.
+  destruct C as [->|[->|[->|[->| ->]]]]; cbn [std_len] in L; cbn [kind_info];
+    eapply for_info_render_token; try reflexivity; try lia; change (2 ^ 32) with 4294967296; lia.
+Qed.
+
+(* rejection by the first byte *)
+Lemma reject_first_lit k o rest b t : (k < 5)%nat -> tmpl_cls k = ILit o :: rest -> b <> n2b o ->
+  exists d, contract_match (tmpl k) (b :: t) = Ret d /\ truthy d = false.
+Proof.
+  intros Hk C NE. apply contract_match_reject; [exact Hk|]. intros caps _ E. rewrite C in E. cbn [render] in E.
+  injection E as E _. contradiction.
+Qed.
+Lemma reject_pubkey b t : 76 < b2n b ->
+  exists d, contract_match (tmpl 3) (b :: t) = Ret d /\ truthy d = false.
+Proof.
+  intros Hb. apply contract_match_reject; [lia|]. intros caps OK E.
+  destruct (caps_single 3 caps ltac:(lia) OK) as (c & -> & L). apply cap_len_range in L.
+  cbn [tmpl_cls render] in E. destruct (spec_push_head c ltac:(lia)) as (b' & t' & SP & R). rewrite SP in E.
+  cbn [app] in E. injection E as -> _. lia.
+Qed.
+
+Ltac reject_lit k :=
+  match goal with |- context [contract_match (tmpl k) (?b :: ?t)] =>
+    let d := fresh "d" in let M := fresh "M" in let T := fresh "T" in
+    destruct (reject_first_lit k _ _ b t ltac:(lia) eq_refl ltac:(vm_compute; discriminate)) as (d & M & T);
+    rewrite M; cbn [bind]; rewrite T; clear d M T
+  end.
+
+Lemma info_for_script_std k p : k <= 4 -> length p = std_len k ->
+  info_for_script (std_script k p) = Ret (kind_info k p).
+Proof.
+  intros Hk L. pose proof (std_script_render k p Hk L) as R.
+  assert (C : k = 0 \/ k = 1 \/ k = 2 \/ k = 3 \/ k = 4) by lia.
+  destruct C as [->|[->|[->|[->| ->]]]]; cbn [std_len] in L; cbn [kind_info info_render] in *.
+  - (* P2PKH *)
+    unfold info_for_script. rewrite R, (contract_match_complete 0 [p]) by (try lia; cbn; rewrite L; auto).
+    cbn [bind]. rewrite truthy_single by lia. now rewrite (first_of_single 0) by lia.
+  - (* P2SH *)
+    unfold info_for_script. cbn [std_script app]. reject_lit 0%nat.
+    unfold info_step_segwit. reject_lit 1%nat.
+    unfold info_step_p2sh. change ([xa9; x14] ++ p ++ [x87]) with (std_script 1 p) in R.
+    cbn [std_script app] in R. rewrite R, (contract_match_complete 2 [p]) by (try lia; cbn; rewrite L; auto).
+    cbn [bind]. rewrite truthy_single by lia. now rewrite (first_of_single 2) by lia.
+  - (* P2WPKH *)
+    unfold info_for_script. cbn [std_script app]. reject_lit 0%nat.
+    unfold info_step_segwit. cbn [std_script app] in R.
+    rewrite R, (contract_match_complete 1 [p]) by (try lia; cbn; rewrite L; auto).
+    cbn [bind]. rewrite truthy_single by lia. rewrite (first_of_single 1) by lia. cbn [bind]. now rewrite L.
+  - (* P2WSH *)
+    unfold info_for_script. cbn [std_script app]. reject_lit 0%nat.
+    unfold info_step_segwit. cbn [std_script app] in R.
+    rewrite R, (contract_match_complete 1 [p]) by (try lia; cbn; rewrite L; auto).
+    cbn [bind]. rewrite truthy_single by lia. rewrite (first_of_single 1) by lia. cbn [bind]. now rewrite L.
+  - (* P2TR *)
+    unfold info_for_script. cbn [std_script app]. reject_lit 0%nat.
+    unfold info_step_segwit. reject_lit 1%nat.
+    unfold info_step_p2sh. reject_lit 2%nat.
+    unfold info_step_p2pk.
+    destruct (reject_pubkey x51 (x20 :: p) ltac:(vm_compute; reflexivity)) as (d & M & T). rewrite M. cbn [bind]. rewrite T. clear d M T.
+    unfold info_step_p2tr. cbn [std_script app] in R.
+    rewrite R, (contract_match_complete 4 [p]) by (try lia; cbn; rewrite L; auto).
+    cbn [bind]. rewrite truthy_single by lia. rewrite (first_of_single 4) by lia. cbn [bind]. now rewrite L.
+Qed.
+
+(* ============================ addresses: encoders and parsers over abstract codecs ============================ *)
+Lemma starts_with_app p h : starts_with p (p ++ h) = true.
+Proof. induction p as [|x p IH]; [reflexivity|]. cbn [starts_with app]. now rewrite byte_eqb_refl, IH. Qed.
+Lemma starts_with_prefix p d : starts_with p d = true -> d = p ++ skipn (length p) d.
+Proof.
+  revert d; induction p as [|x p IH]; intros d H; [reflexivity|].
+  destruct d as [|y d]; [discriminate|]. cbn [starts_with] in H. apply andb_true_iff in H. destruct H as [H1 H2].
+  apply byte_eqb_eq in H1. subst y. cbn [length skipn app]. f_equal. now apply IH.
+Qed.
+Lemma app_same_tail_len {A} (a b c d : list A) : a ++ b = c ++ d -> length b = length d -> a = c /\ b = d.
+Proof.
+  revert c; induction a as [|x a IH]; intros [|y c] H L; cbn [app] in H.
+  - auto.
+  - subst b. cbn [length] in L. rewrite app_length in L. lia.
+  - subst d. cbn [length] in L. rewrite app_length in L. lia.
+  - injection H as -> H. destruct (IH _ H L) as [-> ->]. auto.
+Qed.
+
+Lemma parser_constants : p2pkh_payload_len = 20%nat /\ p2sh_payload_len = 20%nat /\
+  segwit_args 0 = (0, 20%nat) /\ segwit_args 1 = (0, 32%nat) /\ segwit_args 2 = (1, 32%nat) /\
+  enc_bech32 = 1 /\ enc_bech32m = 2.
+Proof. repeat split; reflexivity. Qed.
+
+Section Codecs.
+Variable enc : bytes -> bytes.
+Variable dec : bytes -> option bytes.
+Variable senc : bytes -> N -> bytes -> option bytes.
+Variable sparse : bytes -> option (bytes * N * bytes * N).
+Variable hash160 : bytes -> bytes.
+Variable sha256 : bytes -> bytes.
+Hypothesis LAWS : codec_laws enc dec senc sparse.
+
+Notation addr_for_script := (address_for_script enc senc hash160).
+Notation parse_addr := (parse_address dec sparse).
+
+(* the address a network gives to a standard script, as a specification *)
+Definition std_address (net : netrow) (k : N) (p : bytes) : option bytes :=
+  match k with
+  | 0 => match nr_pkh net with Some pre => Some (enc (pre ++ p)) | None => None end
+  | 1 => match nr_sh net with Some pre => Some (enc (pre ++ p)) | None => None end
+  | _ => match nr_hrp net with Some hrp => senc hrp (std_version k) p | None => None end
+  end.
+
+(* what a string says on a network: kind and payload *)
+Definition address_denotes (net : netrow) (s : bytes) (k : N) (p : bytes) : Prop :=
+  match k with
+  | 0 => exists pre, nr_pkh net = Some pre /\ dec s = Some (pre ++ p)
+  | 1 => exists pre, nr_sh net = Some pre /\ dec s = Some (pre ++ p)
+  | _ => exists hrp, nr_hrp net = Some hrp /\ sparse s = Some (hrp, std_version k, p, spec_for (std_version k))
+  end.
+
+Lemma address_for_script_std net k p : k <= 4 -> length p = std_len k ->
+  addr_for_script net (std_script k p) = Ret (std_address net k p).
+Proof.
+  intros Hk L. unfold address_for_script. rewrite (info_for_script_std k p Hk L). cbn [bind].
+  assert (C : k = 0 \/ k = 1 \/ k = 2 \/ k = 3 \/ k = 4) by lia.
+  destruct C as [->|[->|[->|[->| ->]]]]; cbn [std_len] in L;
+    cbn [kind_info address_for_script_info std_address std_version];
+    unfold address_for_p2pkh, address_for_p2sh, address_for_p2pkh_wit, address_for_p2sh_wit, address_for_p2tr;
+    try reflexivity; destruct (nr_hrp net); try reflexivity; rewrite L; reflexivity.
+Qed.
+
+(* ---- the two Base58 parsers ---- *)
+Lemma parse_b58_cases k prefix s : k = 0 \/ k = 1 ->
+  (exists pre h, prefix = Some pre /\ dec s = Some (pre ++ h) /\ length h = 20%nat /\
+     parse_b58 dec prefix 20 (kind_info k) s = Ret (Some (kind_info k h)))
+  \/ (parse_b58 dec prefix 20 (kind_info k) s = Ret None /\
+      forall pre h, prefix = Some pre -> dec s = Some (pre ++ h) -> length h <> 20%nat).
+Proof.
+  intros Hk. unfold parse_b58.
+  destruct (dec s) as [data|] eqn:D; [|right; split; [reflexivity|discriminate]].
+  destruct prefix as [pre|]; [|right; split; [reflexivity|discriminate]].
+  destruct (starts_with pre data) eqn:SW; cbn [negb].
+  - pose proof (starts_with_prefix _ _ SW) as E.
+    destruct (length data =? length pre + 20)%nat eqn:LN; cbn [negb].
+    + left. exists pre, (skipn (length pre) data).
+      assert (L20 : length (skipn (length pre) data) = 20%nat) by (rewrite skipn_length; lia).
+      repeat split; auto; [congruence|].
+      assert (K4 : k <= 4) by lia.
+      assert (SL : std_len k = 20%nat) by (destruct Hk as [-> | ->]; reflexivity).
+      rewrite (for_info_std k _ K4) by lia. cbn [bind].
+      rewrite (info_for_script_std k _ K4) by lia. reflexivity.
+    + right. split; [reflexivity|]. intros pre' h [= <-] [= ->]. rewrite app_length in LN. lia.
+  - right. split; [reflexivity|]. intros pre' h [= <-] [= ->]. now rewrite starts_with_app in SW.
+Qed.
+
+(* ---- the three segwit parsers ---- *)
+Lemma parse_bech32m_cases net k s : k = 2 \/ k = 3 \/ k = 4 ->
+  (exists hrp prog, nr_hrp net = Some hrp /\ sparse s = Some (hrp, std_version k, prog, spec_for (std_version k)) /\
+     length prog = std_len k /\
+     parse_bech32m sparse net s (std_version k) (std_len k) (kind_info k) = Ret (Some (kind_info k prog)))
+  \/ (parse_bech32m sparse net s (std_version k) (std_len k) (kind_info k) = Ret None /\
+      forall hrp prog, nr_hrp net = Some hrp -> sparse s = Some (hrp, std_version k, prog, spec_for (std_version k)) ->
+        length prog <> std_len k).
+Proof.
+  intros Hk. unfold parse_bech32m.
+  destruct (sparse s) as [[[[hp ver] prog] spec]|] eqn:SP; [|right; split; [reflexivity|discriminate]].
+  destruct (nr_hrp net) as [hrp|]; [|right; split; [reflexivity|discriminate]].
+  destruct (bytes_eqb hp hrp) eqn:E1; cbn [negb].
+  2:{ right. split; [reflexivity|]. intros h' p' [= <-] [= -> _ _ _]. now rewrite bytes_eqb_refl in E1. }
+  apply bytes_eqb_eq in E1. subst hp.
+  destruct (length prog =? std_len k)%nat eqn:E2; cbn [negb].
+  2:{ right. split; [reflexivity|]. intros h' p' _ [= _ <- _]. lia. }
+  destruct (std_version k =? ver) eqn:E3; cbn [negb].
+  2:{ right. split; [reflexivity|]. intros h' p' _ [= <- _ _]. lia. }
+  apply N.eqb_eq in E3. subst ver.
+  assert (K4 : k <= 4) by lia.
+  destruct ((std_version k =? 0) && negb (spec =? enc_bech32)) eqn:E4.
+  { right. split; [reflexivity|]. intros h' p' _ [= _ <-]. unfold spec_for in E4.
+    destruct (std_version k =? 0); cbn in E4; [|discriminate]. now rewrite N.eqb_refl in E4. }
+  destruct (negb (std_version k =? 0) && negb (spec =? enc_bech32m)) eqn:E5.
+  { right. split; [reflexivity|]. intros h' p' _ [= _ <-]. unfold spec_for in E5.
+    destruct (std_version k =? 0); cbn in E5; [discriminate|]. now rewrite N.eqb_refl in E5. }
+  left. exists hrp, prog. apply Nat.eqb_eq in E2.
+  assert (SPF : spec = spec_for (std_version k)).
+  { unfold spec_for. destruct (std_version k =? 0); cbn [andb negb] in E4, E5.
+    - destruct (spec =? enc_bech32) eqn:Q; [now apply N.eqb_eq in Q|discriminate].
+    - destruct (spec =? enc_bech32m) eqn:Q; [now apply N.eqb_eq in Q|discriminate]. }
+  subst spec. repeat split; auto.
+  rewrite (for_info_std k _ K4 E2). cbn [bind]. rewrite (info_for_script_std k _ K4 E2). reflexivity.
+Qed.
+
+(* the parsers as instances of the two schemes *)
+Lemma parse_p2pkh_eq net s : parse_p2pkh dec net s = parse_b58 dec (nr_pkh net) 20 (kind_info 0) s.
+Proof. reflexivity. Qed.
+Lemma parse_p2sh_eq net s : parse_p2sh dec net s = parse_b58 dec (nr_sh net) 20 (kind_info 1) s.
+Proof. reflexivity. Qed.
+Lemma parse_segwit_eq net s :
+  parse_p2pkh_segwit sparse net s = parse_bech32m sparse net s (std_version 2) (std_len 2) (kind_info 2) /\
+  parse_p2sh_segwit sparse net s = parse_bech32m sparse net s (std_version 3) (std_len 3) (kind_info 3) /\
+  parse_p2tr sparse net s = parse_bech32m sparse net s (std_version 4) (std_len 4) (kind_info 4).
+Proof. repeat split; reflexivity. Qed.
+
+(* every parser either accepts with the denoted kind/payload or returns None: parse_address never raises, and what
+   it returns is the first accepting parser's Contract *)
+Definition parser_k (net : netrow) (k : N) (s : bytes) : outcome (option info) :=
+  match k with
+  | 0 => parse_p2pkh dec net s
+  | 1 => parse_p2sh dec net s
+  | 2 => parse_p2pkh_segwit sparse net s
+  | 3 => parse_p2sh_segwit sparse net s
+  | _ => parse_p2tr sparse net s
+  end.
+
+Lemma parser_k_cases net k s : k <= 4 ->
+  (exists p, length p = std_len k /\ address_denotes net s k p /\ parser_k net k s = Ret (Some (kind_info k p)))
+  \/ (parser_k net k s = Ret None /\ forall p, length p = std_len k -> ~ address_denotes net s k p).
+Proof.
+  intros Hk. assert (C : k = 0 \/ k = 1 \/ k = 2 \/ k = 3 \/ k = 4) by lia.
+  destruct C as [->|[->|[->|[->| ->]]]]; cbn [parser_k address_denotes std_len].
+  - rewrite parse_p2pkh_eq. destruct (parse_b58_cases 0 (nr_pkh net) s ltac:(auto)) as [(pre & h & A & B & C & D)|[A B]].
+    + left. exists h. repeat split; eauto.
+    + right. split; [exact A|]. intros p L (pre & E1 & E2). exact (B pre p E1 E2 L).
+  - rewrite parse_p2sh_eq. destruct (parse_b58_cases 1 (nr_sh net) s ltac:(auto)) as [(pre & h & A & B & C & D)|[A B]].
+    + left. exists h. repeat split; eauto.
+    + right. split; [exact A|]. intros p L (pre & E1 & E2). exact (B pre p E1 E2 L).
+  - rewrite (proj1 (parse_segwit_eq net s)).
+    destruct (parse_bech32m_cases net 2 s ltac:(auto)) as [(hrp & prog & A & B & C & D)|[A B]].
+    + left. exists prog. repeat split; eauto.
+    + right. split; [exact A|]. intros p L (hrp & E1 & E2). exact (B hrp p E1 E2 L).
+  - rewrite (proj1 (proj2 (parse_segwit_eq net s))).
+    destruct (parse_bech32m_cases net 3 s ltac:(auto)) as [(hrp & prog & A & B & C & D)|[A B]].
+    + left. exists prog. repeat split; eauto.
+    + right. split; [exact A|]. intros p L (hrp & E1 & E2). exact (B hrp p E1 E2 L).
+  - rewrite (proj2 (proj2 (parse_segwit_eq net s))).
+    destruct (parse_bech32m_cases net 4 s ltac:(auto)) as [(hrp & prog & A & B & C & D)|[A B]].
+    + left. exists prog. repeat split; eauto.
+    + right. split; [exact A|]. intros p L (hrp & E1 & E2). exact (B hrp p E1 E2 L).
+Qed.
+
+Lemma parse_address_unfold net s : parse_addr net s =
+  or_else (parser_k net 0 s) (or_else (parser_k net 1 s) (or_else (parser_k net 2 s) (or_else (parser_k net 3 s) (parser_k net 4 s)))).
+Proof. reflexivity. Qed.
+
+(* parse_address returns the verdict of the first accepting parser; None when none accepts *)
+Lemma parse_address_spec net s :
+  (exists k p, k <= 4 /\ length p = std_len k /\ address_denotes net s k p /\
+     (forall j, j < k -> forall q, length q = std_len j -> ~ address_denotes net s j q) /\
+     parse_addr net s = Ret (Some (kind_info k p)))
+  \/ (parse_addr net s = Ret None /\ forall k p, k <= 4 -> length p = std_len k -> ~ address_denotes net s k p).
+Proof.
+  rewrite parse_address_unfold.
+  destruct (parser_k_cases net 0 s ltac:(lia)) as [(p & L & D & E)|[E0 N0]].
+  { left. exists 0, p. rewrite E. cbn [or_else bind]. repeat split; auto; try lia. intros j Hj. lia. }
+  rewrite E0. cbn [or_else bind].
+  destruct (parser_k_cases net 1 s ltac:(lia)) as [(p & L & D & E)|[E1 N1]].
+  { left. exists 1, p. rewrite E. cbn [or_else bind]. repeat split; auto; try lia.
+    intros j Hj. assert (j = 0) by lia. subst. exact N0. }
+  rewrite E1. cbn [or_else bind].
+  destruct (parser_k_cases net 2 s ltac:(lia)) as [(p & L & D & E)|[E2 N2]].
+  { left. exists 2, p. rewrite E. cbn [or_else bind]. repeat split; auto; try lia.
+    intros j Hj. assert (C : j = 0 \/ j = 1) by lia. destruct C as [-> | ->]; assumption. }
+  rewrite E2. cbn [or_else bind].
+  destruct (parser_k_cases net 3 s ltac:(lia)) as [(p & L & D & E)|[E3 N3]].
+  { left. exists 3, p. rewrite E. cbn [or_else bind]. repeat split; auto; try lia.
+    intros j Hj. assert (C : j = 0 \/ j = 1 \/ j = 2) by lia. destruct C as [-> |[-> | ->]]; assumption. }
+  rewrite E3. cbn [or_else bind].
+  destruct (parser_k_cases net 4 s ltac:(lia)) as [(p & L & D & E)|[E4 N4]].
+  { left. exists 4, p. rewrite E. repeat split; auto; try lia.
+    intros j Hj. assert (C : j = 0 \/ j = 1 \/ j = 2 \/ j = 3) by lia. destruct C as [-> |[-> |[-> | ->]]]; assumption. }
+  right. split; [exact E4|]. intros k p Hk.
+  assert (C : k = 0 \/ k = 1 \/ k = 2 \/ k = 3 \/ k = 4) by lia.
+  destruct C as [->|[->|[->|[->| ->]]]]; auto.
+Qed.
+End Codecs.
